@@ -26,6 +26,7 @@ import sympy.matrices
 import sympy.utilities
 import sympy.utilities.autowrap
 
+from .config import Config
 from .shapes import Shape
 from .integrator import Integrator
 
@@ -111,7 +112,7 @@ class AnalyticIntegrator(Integrator):
         self.update_expressions_wrapped = {}
         for k, v in self.update_expressions.items():
             self.update_expressions_wrapped[k] = sympy.utilities.autowrap.autowrap(v,
-                                                                                   args=[sympy.Symbol("__h")] + self.all_variable_symbols,
+                                                                                   args=[sympy.Symbol(Config().output_timestep_symbol)] + self.all_variable_symbols,
                                                                                    backend="cython",
                                                                                    helpers=Shape._sympy_autowrap_helpers)
 
